@@ -23,7 +23,7 @@ def nested_value(ver):
 def abstract_nested(x):
     """concrete nested object -> model value: ver, 0 (caller garbage inside) or '?'."""
     try:
-        if isinstance(x, dict) and set(x) == {"v", "deep"}:
+        if isinstance(x, dict) and set(x) - {"by"} == {"v", "deep"}:
             if x["v"] == 0 or 0 in x["deep"]["l"]:
                 return 0
             if x == nested_value(x["v"]):
@@ -52,6 +52,8 @@ class Env:
         self.db = None
         self.parents = {}
         self.serial = 0
+        self.parent_serial = 0
+        self.port_tokens = {}
 
     async def open(self):
         from vh.sut import context as sctx
@@ -72,7 +74,8 @@ class Env:
         from streamflow.workflow.step import ScatterStep
         db = self.db
         p = self.parents
-        p["workflow"] = await db.add_workflow(name="parent-wf", params={"config": {}, "output_ports": {}}, status=0, type=Workflow)
+        self.parent_serial += 1
+        p["workflow"] = await db.add_workflow(name="parent-wf-%d" % self.parent_serial, params={"config": {}, "output_ports": {}}, status=0, type=Workflow)
         p["port"] = await db.add_port(name="parent-port", workflow_id=p["workflow"], type=Port, params={})
         p["step"] = await db.add_step(name="parent-step", workflow_id=p["workflow"], status=0, type=ScatterStep, params={})
         p["deployment"] = await db.add_deployment(name="parent-dep", type="local", config={}, external=True, lazy=False,
@@ -111,15 +114,17 @@ class Table:
     json_cols = ()
     predict = True          # compare the abstraction of what was read with the model's prediction
 
+    top_offset = 100
+
     def top_value(self, ver):
-        return 100 + ver if self.top_is_int else "v%d" % ver
+        return self.top_offset + ver if self.top_is_int else "v%d" % ver
 
     def abstract_top(self, v):
-        if v == CALLER_INT or v == CALLER_STR:
+        if self.caller_origin(v) is not None:
             return 0
         try:
             if self.top_is_int and isinstance(v, int):
-                return v - 100
+                return v - self.top_offset
             if not self.top_is_int and isinstance(v, str) and v.startswith("v"):
                 return int(v[1:])
         except Exception:
@@ -158,14 +163,34 @@ class Table:
         return got
 
     # --- the caller's own mutations -----------------------------------------------------------
-    def mut_top(self, row):
+    # The garbage a caller writes names the reader that handed the row out (origin None: get_<t> itself), so that a
+    # later read that returns it says through which reader the cache was reached.
+    bulk_names = ()
+
+    def caller_top(self, origin):
+        k = 0 if origin is None else 1 + self.bulk_names.index(origin)
+        return CALLER_INT - k if self.top_is_int else (CALLER_STR if not k else "%s:%s" % (CALLER_STR, origin))
+
+    def caller_origin(self, v):
+        """None: not caller garbage; otherwise the name of the reader whose row was modified"""
+        single = self.getter.split("/")[0]
+        if isinstance(v, bool):
+            return None
+        if isinstance(v, int) and v <= CALLER_INT:
+            k = CALLER_INT - v
+            return single if k == 0 else (self.bulk_names[k - 1] if k <= len(self.bulk_names) else "?")
+        if isinstance(v, str) and v.startswith(CALLER_STR):
+            return v.partition(":")[2] or single
+        return None
+
+    def mut_top(self, row, origin=None):
         try:
-            row[self.top_col] = CALLER_INT if self.top_is_int else CALLER_STR
+            row[self.top_col] = self.caller_top(origin)
             return True
         except TypeError:
             return False         # immutable row object (sqlite3.Row): nothing the caller can change
 
-    def mut_nested(self, row):
+    def mut_nested(self, row, origin=None):
         try:
             n = row[self.nested_col]
             if not isinstance(n, dict):
@@ -173,9 +198,25 @@ class Table:
             if n["v"] != 0:
                 n["v"] = 0
                 n["deep"]["l"].append(0)
+                if origin is not None:
+                    n["by"] = origin
             return True
         except (TypeError, KeyError):
             return False
+
+    # --- bulk / relational readers that return rows of this table by another path ---------------
+    async def bulk(self, env, cids):
+        """[(reader name, [row object or None per cid], what it returned (normalised), the truth)]; commits before
+        reading the truth"""
+        return []
+
+    async def extras(self, env, cids):
+        """read-only derived readers compared at the end of a history: [(label, got, truth)]"""
+        return []
+
+    async def secondary(self, env, cids):
+        out = [(g, got, truth) for g, _, got, truth in await self.bulk(env, list(cids))]
+        return out + list(await self.extras(env, list(cids)))
 
     # --- the truth -------------------------------------------------------------------------------
     def truth(self, env, cid):
@@ -187,10 +228,6 @@ class Table:
             row[c] = json.loads(row[c]) if row[c] is not None else None
         return row
 
-    # secondary (uncached, list-valued) getters compared at the end of a history: [(label, got, truth)]
-    async def secondary(self, env, cids):
-        return []
-
 
 class StepT(Table):
     name, kind, getter, top_col, nested_col, top_is_int, json_cols = "step", "A", "get_step", "status", "params", True, ("params",)
@@ -200,9 +237,12 @@ class StepT(Table):
         return await env.db.add_step(name="s%d" % ver, workflow_id=env.parents["workflow"], status=self.top_value(ver),
                                      type=ScatterStep, params=nested_value(ver))
 
-    async def secondary(self, env, cids):
-        got = [r for r in await env.db.get_workflow_steps(env.parents["workflow"]) if r["id"] in cids]
-        return [("get_workflow_steps", sorted(got, key=lambda r: r["id"]), [self.truth(env, c) for c in sorted(cids)])]
+    bulk_names = ("get_workflow_steps",)
+
+    async def bulk(self, env, cids):
+        rows = {r["id"]: r for r in await env.db.get_workflow_steps(env.parents["workflow"])}
+        await env.commit()
+        return [("get_workflow_steps", [rows.get(c) for c in cids], [_plain(rows.get(c)) for c in cids], [self.truth(env, c) for c in cids])]
 
 
 class PortT(Table):
@@ -213,9 +253,21 @@ class PortT(Table):
         return await env.db.add_port(name=self.top_value(ver), workflow_id=env.parents["workflow"], type=Port,
                                      params=nested_value(ver))
 
-    async def secondary(self, env, cids):
-        got = [r for r in await env.db.get_workflow_ports(env.parents["workflow"]) if r["id"] in cids]
-        return [("get_workflow_ports", sorted(got, key=lambda r: r["id"]), [self.truth(env, c) for c in sorted(cids)])]
+    bulk_names = ("get_workflow_ports", "get_port_from_token")
+
+    async def bulk(self, env, cids):
+        from streamflow.core.workflow import Token
+        rows = {r["id"]: r for r in await env.db.get_workflow_ports(env.parents["workflow"])}
+        via = []
+        for c in cids:          # a token on each port, then the port row through the join
+            tok = env.port_tokens.get(c)
+            if tok is None:
+                tok = env.port_tokens[c] = await env.db.add_token(tag="0", type=Token, value=None, port=c)
+            via.append(await env.db.get_port_from_token(tok))
+        await env.commit()
+        truth = [self.truth(env, c) for c in cids]
+        return [("get_workflow_ports", [rows.get(c) for c in cids], [_plain(rows.get(c)) for c in cids], truth),
+                ("get_port_from_token", via, [_plain(r) for r in via], truth)]
 
 
 class DeploymentT(Table):
@@ -248,18 +300,34 @@ class FilterT(Table):
 
 class WorkflowT(Table):
     name, kind, getter, top_col, nested_col, top_is_int, json_cols = "workflow", "B", "get_workflow", "status", "params", True, ("params",)
+    top_offset = 0          # status values stay inside the Status enum (get_workflows_list renders them)
 
     async def add(self, env, ver):
         from streamflow.core.workflow import Workflow
         return await env.db.add_workflow(name="w%d_%d" % (env.serial, ver), params=nested_value(ver), status=self.top_value(ver), type=Workflow)
 
-    async def secondary(self, env, cids):
-        out = []
-        for c in sorted(cids):
-            t = self.truth(env, c)
-            got = [r for r in await env.db.get_workflows_by_name(t["name"]) if r["id"] == c]
-            out.append(("get_workflows_by_name", got, [t]))
-        return out
+    bulk_names = ("get_workflows_by_name", "get_workflows_by_name:last_only")
+
+    async def bulk(self, env, cids):
+        await env.commit()
+        names = [self.truth(env, c)["name"] for c in cids]          # names are unique per history (w<serial>_<ver>)
+        a = [await env.db.get_workflows_by_name(n) for n in names]
+        b = [await env.db.get_workflows_by_name(n, last_only=True) for n in names]
+        await env.commit()
+        truth = [self.truth(env, c) for c in cids]
+        one = lambda rows, c: next((r for r in rows if r["id"] == c), None)  # noqa
+        ra, rb = [one(rows, c) for rows, c in zip(a, cids)], [one(rows, c) for rows, c in zip(b, cids)]
+        return [("get_workflows_by_name", ra, [_plain(r) for r in ra], truth),
+                ("get_workflows_by_name:last_only", rb, [_plain(r) for r in rb], truth)]
+
+    async def extras(self, env, cids):
+        # get_workflows_list(name) formats start/end times and raises TypeError on a workflow that never started
+        # (NULL times) - with or without caches, so it says nothing about C09; the grouped listing is compared instead
+        names = {self.truth(env, c)["name"] for c in cids}
+        got = sorted((dict(r) for r in await env.db.get_workflows_list(None) if r["name"] in names), key=lambda r: r["name"])
+        truth = sorted((r for r in env.sql("SELECT name, type, COUNT(*) AS num FROM workflow GROUP BY name, type") if r["name"] in names),
+                       key=lambda r: r["name"])
+        return [("get_workflows_list", got, truth)]
 
 
 class ExecutionT(Table):
@@ -279,9 +347,18 @@ class ExecutionT(Table):
         upd = {"cmd": self.top_value(ver)} if field == "top" else {"job_token": 100 + ver}
         return await env.db.update_execution(cid, upd)
 
-    async def secondary(self, env, cids):
-        got = [dict(r) for r in await env.db.get_executions_by_step(env.parents["step"]) if r["id"] in cids]
-        return [("get_executions_by_step", sorted(got, key=lambda r: r["id"]), [self.truth(env, c) for c in sorted(cids)])]
+    bulk_names = ("get_executions_by_step",)
+
+    async def bulk(self, env, cids):
+        rows = {r["id"]: r for r in await env.db.get_executions_by_step(env.parents["step"])}
+        await env.commit()
+        return [("get_executions_by_step", [rows.get(c) for c in cids], [_plain(rows.get(c)) for c in cids], [self.truth(env, c) for c in cids])]
+
+    async def extras(self, env, cids):
+        got = await env.db.get_reports("parent-wf-%d" % env.parent_serial)
+        rows = env.sql("SELECT c.id, s.name, c.start_time, c.end_time FROM step AS s, execution AS c WHERE s.id = c.step AND s.workflow = ?",
+                       (env.parents["workflow"],))
+        return [("get_reports", [sorted(x, key=lambda r: r["id"]) for x in got], [sorted(rows, key=lambda r: r["id"])] if rows else [])]
 
 
 class TokenT(Table):
@@ -301,15 +378,13 @@ class TokenT(Table):
         row["recoverable"] = bool(env.sql("SELECT COUNT(*) AS n FROM recoverable WHERE id = ?", (cid,))[0]["n"])
         return row
 
-    async def secondary(self, env, cids):
-        got = sorted(i for i in await env.db.get_port_tokens(env.parents["port"]) if i in cids)
-        out = [("get_port_tokens", got, sorted(cids))]
-        for c in sorted(cids):
-            p = await env.db.get_port_from_token(c)
-            tp = env.sql("SELECT * FROM port WHERE id = ?", (env.parents["port"],))[0]
-            tp["params"] = json.loads(tp["params"])
-            out.append(("get_port_from_token", p, tp))
-        return out
+    bulk_names = ("get_port_tokens",)
+
+    async def bulk(self, env, cids):
+        got = [i for i in await env.db.get_port_tokens(env.parents["port"]) if i in cids]
+        await env.commit()
+        truth = [r["id"] for r in env.sql("SELECT id FROM token WHERE port = ?", (env.parents["port"],)) if r["id"] in cids]
+        return [("get_port_tokens", [None for _ in cids], sorted(got), sorted(truth))]      # ids only: nothing a caller could modify
 
 
 class ProvenanceT(Table):
@@ -331,14 +406,14 @@ class ProvenanceT(Table):
         key = lambda r: (r["dependee"], r["depender"])  # noqa
         return {k: sorted((dict(r) for r in v), key=key) for k, v in got.items()}
 
-    def mut_top(self, row):
+    def mut_top(self, row, origin=None):
         try:
             row["dependees"].append({"dependee": 0, "depender": 0})
             return True
         except Exception:
             return False
 
-    def mut_nested(self, row):
+    def mut_nested(self, row, origin=None):
         try:
             row["dependees"][0]["dependee"] = 0
             return True
@@ -376,14 +451,14 @@ class DependencyT(Table):
         key = lambda r: (r["step"], r["port"])  # noqa
         return {k: sorted((dict(r) for r in v), key=key) for k, v in got.items()}
 
-    def mut_top(self, row):
+    def mut_top(self, row, origin=None):
         try:
             row["input_ports"].append({"step": 0})
             return True
         except Exception:
             return False
 
-    def mut_nested(self, row):
+    def mut_nested(self, row, origin=None):
         try:
             row["input_ports"][0]["name"] = CALLER_STR
             return True
@@ -397,19 +472,25 @@ class DependencyT(Table):
                 "output_steps": env.sql(q % "port", (pi, 0)), "input_steps": env.sql(q % "port", (po, 1))}
 
 
+def _plain(r):
+    return dict(r) if isinstance(r, sqlite3.Row) else r
+
+
 TABLES = [StepT(), PortT(), DeploymentT(), TargetT(), FilterT(), WorkflowT(), ExecutionT(), TokenT(), ProvenanceT(), DependencyT()]
 BY_NAME = {t.name: t for t in TABLES}
 
-def cfg_text(depth, deep=False, gen=True, invariants=(), two=False, max_id=2, max_rets=2):
+def cfg_text(depth, deep=True, gen=True, invariants=(), two=False, max_id=2, max_rets=2, bulk_fills="{}"):
     """kinds (default): the four kinds of table A cached+updatable, B updatable, C cached, D plain, one table per
-    history (focus).  two: histories over two cached, updatable tables a and b."""
+    history (focus).  two: histories over two cached, updatable tables a and b.
+    deep=True, bulk_fills="{}" is the code as it is (deep-copying cached getters since 1d9dc38, bulk readers leave the
+    caches alone); deep=False / bulk_fills='{"A"}' are the two defect models."""
     if two:
-        tables, cached, upd, suffix = '{"a", "b"}', '{"a", "b"}', '{"a", "b"}', "All"
+        tables, cached, upd, bulk, suffix = '{"a", "b"}', '{"a", "b"}', '{"a", "b"}', '{"a", "b"}', "All"
     else:
-        tables, cached, upd, suffix = '{"A", "B", "C", "D"}', '{"A", "C"}', '{"A", "B"}', "F"
-    text = ('CONSTANTS Tables = %s  Cached = %s  Updatable = %s  MaxId = %d  MaxRets = %d  MaxDepth = %d  DeepCopy = %s\n'
+        tables, cached, upd, bulk, suffix = '{"A", "B", "C", "D"}', '{"A", "C"}', '{"A", "B"}', '{"A", "B", "C"}', "F"
+    text = ('CONSTANTS Tables = %s  Cached = %s  Updatable = %s  Bulk = %s  BulkFills = %s  MaxId = %d  MaxRets = %d  MaxDepth = %d  DeepCopy = %s\n'
             'CONSTANT Pops <- PopsSelf\nINIT Init%s\nNEXT %s%s\nVIEW %s\n') % (
-        tables, cached, upd, max_id, max_rets, depth, "TRUE" if deep else "FALSE", suffix,
+        tables, cached, upd, bulk, bulk_fills, max_id, max_rets, depth, "TRUE" if deep else "FALSE", suffix,
         "GenNext" if gen else "Next", suffix, "ViewGenF" if gen else "ViewF")
     for i in invariants:
         text += "INVARIANT %s\n" % i
@@ -420,13 +501,15 @@ def cfg_text(depth, deep=False, gen=True, invariants=(), two=False, max_id=2, ma
 # replay of model histories on the real database
 # ------------------------------------------------------------------------------------------------
 
-def classify(tab, got, truth, last_write):
-    """Signature of a read that differs from the database: which getter, which way."""
-    g = tab.getter.split("/")[0] if tab.kind != "D" else "get_" + tab.name
+def classify(tab, got, truth, last_write, reader=None):
+    """Signature of a read that differs from the database: which reader returned it, which way.  When the wrong value
+    is the caller's own garbage, the signature names the reader whose returned row reached the cache (the garbage says
+    through which reader it was handed out)."""
+    g = reader or (tab.getter.split("/")[0] if tab.kind != "D" else "get_" + tab.name)
     if isinstance(got, BaseException):
         return "raise:%s:%s" % (g, type(got).__name__)
     if not isinstance(got, dict) or not isinstance(truth, dict):
-        return "mismatch:%s:shape" % g
+        return None if got == truth else "mismatch:%s:shape" % g
     cols = sorted(c for c in set(got) | set(truth) if got.get(c, "<absent>") != truth.get(c, "<absent>")
                   or type(got.get(c)) is not type(truth.get(c)))
     if not cols:
@@ -435,15 +518,31 @@ def classify(tab, got, truth, last_write):
     v = got.get(c, "<absent>")
     if tab.kind == "D":
         return "mismatch:%s:%s" % (g, c)
+    seen = "" if reader is None else ":seen-by-%s" % reader
     if c == tab.nested_col and tab.nested_is_json():
         if has_caller_garbage(v):
-            return "aliasing:%s:nested-%s-shared-with-cache" % (g, c)
+            origin = v.get("by") if isinstance(v, dict) and v.get("by") else tab.getter.split("/")[0]
+            return "aliasing:%s:nested-%s-shared-with-cache%s" % (origin, c, seen)
         return "stale:%s:%s-after-%s" % (g, c, last_write or "add")
-    if v in (CALLER_INT, CALLER_STR):
-        return "aliasing:%s:returned-row-is-cached-object" % g
+    origin = tab.caller_origin(v) if c == tab.top_col else None
+    if origin is not None:
+        return "aliasing:%s:returned-row-is-cached-object%s" % (origin, seen)
     if c in (tab.top_col, tab.nested_col):
         return "stale:%s:%s-after-%s" % (g, c, last_write or "add")
     return "mismatch:%s:%s" % (g, c)
+
+
+def classify_bulk(tab, reader, got, truth, last_write=None):
+    """first signature among the rows of a bulk read (lists aligned by id), None when equal"""
+    if got == truth and all(type(a) is type(b) for a, b in zip(got, truth)):
+        return None
+    if isinstance(got, list) and isinstance(truth, list) and len(got) == len(truth):
+        for a, b in zip(got, truth):
+            sig = classify(tab, a, b, last_write, reader=reader) if (isinstance(a, dict) or isinstance(b, dict)) else (None if a == b else "mismatch:%s:ids" % reader)
+            if sig:
+                return sig
+        return None
+    return "mismatch:%s:rows" % reader
 
 
 class Replayer:
@@ -492,15 +591,24 @@ class Replayer:
                             step=n, got=repr(got), truth=truth, predicted_by_model=tab.abstract(got) == _obs(tr) if tab.predict else None)
                     elif tab.predict and tab.abstract(got) != _obs(tr):
                         ctx.count("asis_model_predicts_wrong_read_code_reads_right")   # e.g. a repaired tree
-                    rets.append((i, raw))
+                    rets.append((i, [(None, raw)]))
                     rets[:] = rets[-self.max_rets:]
-                elif act == "mut_top":
-                    i, row = rets[args[0] - 1]
-                    if not tab.mut_top(row):
-                        ctx.count("caller_mutation_impossible")
-                elif act == "mut_nested":
-                    i, row = rets[args[0] - 1]
-                    if not tab.mut_nested(row):
+                elif act == "getall":
+                    # every bulk / relational reader of the table; the caller keeps the rows of all of them
+                    res = await tab.bulk(env, ids)
+                    for reader, objs, got, truth in res:
+                        nreads += 1
+                        sig = classify_bulk(tab, reader, got, truth)
+                        if sig:
+                            bad(sig, "%s after %s returned %r, a fresh connection reads %r" % (reader, hist[:n], got, truth),
+                                step=n, got=repr(got), truth=truth)
+                    for pos in range(len(ids)):
+                        rets.append((pos + 1, [(reader, objs[pos]) for reader, objs, _, _ in res if objs[pos] is not None]))
+                        rets[:] = rets[-self.max_rets:]
+                elif act in ("mut_top", "mut_nested"):
+                    i, held = rets[args[0] - 1]
+                    done = [(tab.mut_top if act == "mut_top" else tab.mut_nested)(row, origin) for origin, row in held]
+                    if not any(done):
                         ctx.count("caller_mutation_impossible")
             except Exception as e:
                 bad("raise:%s_%s:%s" % (act, tab.name, type(e).__name__), "%s raised %r after %s" % (act, e, hist[:n]), step=n, err=repr(e))
@@ -523,10 +631,11 @@ class Replayer:
                 elif tab.predict and tab.abstract(got) != pred:
                     ctx.count("asis_model_predicts_wrong_read_code_reads_right")
             try:
-                for label, got, truth in await tab.secondary(env, set(ids)):
+                for label, got, truth in await tab.secondary(env, ids):
                     nreads += 1
-                    if got != truth:
-                        bad("mismatch:%s:secondary" % label, "after %s: %s returned %r, a fresh connection reads %r" % (hist, label, got, truth),
+                    sig = classify_bulk(tab, label, got, truth)
+                    if sig:
+                        bad(sig, "after %s: %s returned %r, a fresh connection reads %r" % (hist, label, got, truth),
                             got=repr(got), truth=truth)
             except Exception as e:
                 bad("raise:secondary_%s:%s" % (tab.name, type(e).__name__), "secondary getters raised %r after %s" % (e, hist), err=repr(e))
@@ -534,7 +643,7 @@ class Replayer:
 
 
 def history_of(path):
-    return [[t["act"]] + list(t["args"][1:] if t["act"] in ("add", "update", "get") else t["args"]) for t in path]
+    return [[t["act"]] + list(t["args"][1:] if t["act"] in ("add", "update", "get", "getall") else t["args"]) for t in path]
 
 
 def _obs(tr):
@@ -542,21 +651,36 @@ def _obs(tr):
     return {"top": o.get("top"), "nested": o.get("nested")}
 
 
-def build_paths(transitions):
-    """BFS tree over the emitted graph: for every transition the shortest history that ends with it."""
+def build_paths(transitions, without=()):
+    """BFS tree over the emitted graph: for every transition the shortest history that ends with it.
+    without: action names left out (tables that have no bulk reader use the graph without getall); transitions whose
+    source state is then unreachable are dropped."""
     parent = {}
     root = None
+    transitions = [t for t in transitions if t["act"] not in without]
+    out_edges = {}
     for tr in transitions:
         tr["_f"], tr["_t"] = json.dumps(tr["from"]), json.dumps(tr["to"])
         if root is None:
-            root = tr["_f"]
-        if tr["_t"] not in parent and tr["_t"] != root:
-            parent[tr["_t"]] = tr
+            root = tr["_f"]          # TLC emits in breadth-first order: the first source is the initial state
+        out_edges.setdefault(tr["_f"], []).append(tr)
+    frontier, seen = [root], {root}
+    while frontier:                  # breadth-first over the (possibly filtered) graph: shortest histories
+        nxt = []
+        for st in frontier:
+            for tr in out_edges.get(st, ()):
+                if tr["_t"] not in seen:
+                    seen.add(tr["_t"])
+                    parent[tr["_t"]] = tr
+                    nxt.append(tr["_t"])
+        frontier = nxt
 
     def path_to(state):
         out = []
         while state != root:
-            tr = parent[state]
+            tr = parent.get(state)
+            if tr is None:
+                return None
             out.append(tr)
             state = tr["_f"]
         out.reverse()
@@ -566,4 +690,5 @@ def build_paths(transitions):
         s = tr["_f"]
         if s not in cache:
             cache[s] = path_to(s)
-        yield cache[s] + [tr]
+        if cache[s] is not None:
+            yield cache[s] + [tr]
